@@ -155,6 +155,28 @@ theorem scaledCall_notNaN {scale : F} {w : PVal F} {y : F} (h : scaledCall scale
           exact hf.1
         · cases h
 
+/-- `FloatRange.__call__` takes any number that is not NaN and brings it into the float range -/
+theorem doubleCall_of_number {w : PVal F} {r : F} (h : PVal.toFloat? w = some r) (hn : isNaN r = false) :
+    doubleCall w = .ok (median3 (neg maxFinite) r maxFinite) := by
+  simp [doubleCall, h, hn]
+
+/-- `ScaledInteger.__call__` takes any number whose nearest grid value exists and is finite, and returns that grid value -/
+theorem scaledCall_of_number {scale : F} {w : PVal F} {r y : F} (h : PVal.toFloat? w = some r)
+    (hs : DType.snap scale r = some y) (hf : isFinite y = true) : scaledCall scale w = .ok y := by
+  unfold DType.snap at hs
+  cases hg : DType.gridIndex scale r with
+  | none => rw [hg] at hs; cases hs
+  | some k =>
+    rw [hg] at hs
+    simp only [DType.ofGrid] at hs
+    cases hk : (ofInt k : Option F) with
+    | none => rw [hk] at hs; cases hs
+    | some yk =>
+      rw [hk] at hs
+      simp only [Option.some.injEq] at hs
+      subst hs
+      simp [scaledCall, h, hg, hk, hf]
+
 /-- `dt(None)` is refused by every datatype -/
 theorem call_ne_none (dt : DType F) (v' : PVal F) : call dt .none ≠ .ok v' := by
   cases dt <;> simp [call, conv, doubleCall, scaledCall, intCall, boolCall, enumCall, stringCall, blobCall,
@@ -264,15 +286,17 @@ theorem text_core (lib : TextLib F) (hl : TextLib.Lawful lib) : ∀ (dt : DType 
       simp only [Canon] at hc
       simp only [WFT] at hwf
       have hfin := double_finite hwf hv
-      obtain ⟨w, y, h1, h2, h3⟩ := hl.fmtDouble pos x hfin hc
-      exact ⟨.atom (lib.fmtFloat pos x), w, .float y, rfl, by simp [literalEval, h1],
+      obtain ⟨w, r, h1, hr, hn, h3⟩ := hl.fmtDouble pos x hfin hc
+      have h2 := doubleCall_of_number hr hn
+      exact ⟨.atom (lib.fmtFloat pos x), w, .float (median3 (neg maxFinite) r maxFinite), rfl, by simp [literalEval, h1],
         by simp [call, conv, h2, Except.map], by simp [formatValue, fmtNumber, h3], by simp [SameButFloats],
         by simpa [Sendable] using doubleCall_finite h2⟩
   | .scaled scale min max ar rr, pos, v, hwf, hv, hc, htc => by
     cases v <;> simp only [Valid, InSetG] at hv <;> try exact hv.elim
     case float x =>
       simp only [Canon] at hc
-      obtain ⟨w, y, h1, h2, h3, h4⟩ := hl.fmtScaled pos scale x hv.1 hc
+      obtain ⟨w, r, y, h1, hr, hs, hf, h3, h4⟩ := hl.fmtScaled pos scale x hv.1 hc
+      have h2 := scaledCall_of_number hr hs hf
       exact ⟨.atom (lib.fmtFloat pos x), w, .float y, rfl, by simp [literalEval, h1],
         by simp [call, conv, h2, Except.map], by simp [formatValue, fmtNumber, h3], by simp [SameButFloats],
         by simpa [Sendable] using And.intro h4 (scaledCall_notNaN h2)⟩
